@@ -253,6 +253,12 @@ impl SimFs {
         self.st.borrow().calls.clone()
     }
 
+    /// change the current working directory of the simulated process
+    pub fn set_cwd(&self, cwd: &str) {
+        self.mkdir_p(cwd);
+        self.st.borrow_mut().cwd = normalize("/", cwd);
+    }
+
     /// scenarios in which a file is legitimately opened very often switch the guard off (the fuel counter is the
     /// bound there)
     pub fn set_cycle_guard_limit(&self, limit: u32) {
